@@ -92,29 +92,35 @@ Qed.
 Lemma ul_not_blank c n : (c = 61 \/ c = 45) -> is_blank (ul c n) = false.
 Proof. intros Hc. unfold ul. cbn [repeat app]. apply nonblank_head. destruct Hc as [->| ->]; vm_compute; reflexivity. Qed.
 
-(* "--...-" is no list marker line: ListItem.pattern evaluated on it *)
-Lemma dashes_no_marker n : parse_marker (ul 45 (S n)) = None.
+(* "--...-" and "**...*" are no list marker lines: ListItem.pattern evaluated on them *)
+Lemma bullets_no_marker c n : c = 45 \/ c = 42 -> parse_marker (ul c (S n)) = None.
 Proof.
-  unfold parse_marker.
-  assert (N : rmatch re_block_token_ListItem_pattern fl_block_token_ListItem_pattern (ul 45 (S n)) = None); [|rewrite N; reflexivity].
+  intros Hc. unfold parse_marker.
+  assert (N : rmatch re_block_token_ListItem_pattern fl_block_token_ListItem_pattern (ul c (S n)) = None); [|rewrite N; reflexivity].
   unfold rmatch, match_here, start_at. cbn [bef aft pos length Z.of_nat].
-  set (fl := fl_block_token_ListItem_pattern). set (line := ul 45 (S n)). set (s0 := mkMst [] line 0 []).
+  set (fl := fl_block_token_ListItem_pattern). set (line := ul c (S n)). set (s0 := mkMst [] line 0 []).
   change re_block_token_ListItem_pattern with
     (Seq (Grp 1 (Rep true 0 (Some 3%nat) (Lit 32)))
          (Seq (Grp 2 (Alt (Seq (Rep true 1 (Some 9%nat) (Set_ false [CCat CatDigit])) (Set_ false [CLit 46; CLit 41])) (Set_ false [CLit 43; CLit 45; CLit 42])))
               (Grp 3 (Alt Eol (Rep true 1 None (Set_ false [CCat CatSpace])))))).
+  assert (C32 : char_ok fl (Lit 32) c = false) by (destruct Hc as [->| ->]; reflexivity).
+  assert (C10 : (c =? 10) = false) by (destruct Hc as [->| ->]; reflexivity).
   rewrite m_seq, m_grp.
-  apply (m_greedy_none fl (Lit 32) 0 (Some 3%nat) s0 _ [] line); [reflexivity|reflexivity|reflexivity|reflexivity|].
+  apply (m_greedy_none fl (Lit 32) 0 (Some 3%nat) s0 _ [] line); [reflexivity| |reflexivity|reflexivity|].
+  { unfold line, ul. cbn [repeat app stops]. exact C32. }
   intros j Hj. assert (j = 0%nat) by (cbn [length] in Hj; lia). subst j. cbn [firstn skipn app].
   assert (E0 : adv_run s0 [] line = s0) by (change line with (aft s0); apply adv_run_nil). rewrite E0.
   rewrite m_seq, m_grp.
-  rewrite (m_alt_second fl _ _ (set_grp 1 (pos s0) (pos s0) s0) _ 45 (repeat 45 (S n) ++ [10])); [|vm_compute; reflexivity|reflexivity].
-  rewrite (m_char fl (Set_ false [CLit 43; CLit 45; CLit 42]) (set_grp 1 (pos s0) (pos s0) s0) 45 (repeat 45 (S n) ++ [10]) _ eq_refl eq_refl).
-  replace (char_ok fl (Set_ false [CLit 43; CLit 45; CLit 42]) 45) with true by reflexivity.
-  set (s2 := set_grp 2 _ _ _). assert (A2 : aft s2 = 45 :: (repeat 45 n ++ [10])) by reflexivity.
-  rewrite m_grp, m_alt, m_eol. rewrite (at_eol_not_nl fl s2 45 _ A2 eq_refl). cbn [orelse].
-  apply (nomatch_sound fl _ 45 _ _ (repeat 45 n ++ [10])); [vm_compute; reflexivity|exact A2].
+  rewrite (m_alt_second fl _ _ (set_grp 1 (pos s0) (pos s0) s0) _ c (repeat c (S n) ++ [10])); [|destruct Hc as [->| ->]; vm_compute; reflexivity|reflexivity].
+  rewrite (m_char fl (Set_ false [CLit 43; CLit 45; CLit 42]) (set_grp 1 (pos s0) (pos s0) s0) c (repeat c (S n) ++ [10]) _ eq_refl eq_refl).
+  replace (char_ok fl (Set_ false [CLit 43; CLit 45; CLit 42]) c) with true by (destruct Hc as [->| ->]; reflexivity).
+  set (s2 := set_grp 2 _ _ _). assert (A2 : aft s2 = c :: (repeat c n ++ [10])) by reflexivity.
+  rewrite m_grp, m_alt, m_eol. rewrite (at_eol_not_nl fl s2 c _ A2 C10). cbn [orelse].
+  apply (nomatch_sound fl _ c _ _ (repeat c n ++ [10])); [destruct Hc as [->| ->]; vm_compute; reflexivity|exact A2].
 Qed.
+
+Lemma dashes_no_marker n : parse_marker (ul 45 (S n)) = None.
+Proof. apply bullets_no_marker. left. reflexivity. Qed.
 
 Section ParaSetext.
   Variable types : list block_kind.
